@@ -482,4 +482,7 @@ def def_value(node: Node, name: str) -> Optional[ast.AST]:
         return st.value
     if node.kind == "stmt" and isinstance(st, ast.AnnAssign) and isinstance(st.target, ast.Name) and st.target.id == name:
         return st.value
+    if node.kind == "stmt" and isinstance(st, ast.AugAssign) and isinstance(st.target, ast.Name) and st.target.id == name:
+        # `x op= e` binds x to `x op e` (x as it reaches this statement)
+        return ast.copy_location(ast.BinOp(ast.Name(name, ast.Load()), st.op, st.value), st)
     return None
